@@ -11,7 +11,11 @@
 //   band xs | bor xs | bnot x | bxor x y     -> result variable ;  implies a b ; clause pos neg
 //   alldiff xs | alleq xs | element xs xI xV | elementf xs xI (-> result) | aelement xI xs xV
 //   table xs t,t|t,t|..  | count xs a xC | atleast|atmost|exactly xs v n | between a b c | gcc xs vals cnts
-//   new <cons> (fluent, grammar of mlevel.rs) | fn eq|ne|lt|le|gt|ge <expr> <expr> (constraints::functions)
+//   ints2d r c lo hi | ints3d d r c lo hi | bools n | bools2d r c | bools3d d r c   (array factories: handles row-major)
+//   amin xs | amax xs (array_int_minimum / maximum, Result) | sumiter a,a,.. (sum_iter: all handles or all constants)
+//   element2d MAT xR xC xV | element3d CUBE xD xR xC xV | table2d MAT t,t|t,t | table3d CUBE t,t|t,t
+//     MAT ::= - | ROW/ROW/..   ROW ::= e | xI,xJ,..   CUBE ::= - | LAYER//LAYER//..   LAYER ::= E | MAT
+//   new <cons> (fluent, grammar of mlevel.rs; `new andall()` etc. post nothing) | fn eq|ne|lt|le|gt|ge <expr> <expr> (constraints::functions)
 //   entries (each one re-runs the building calls on a fresh Model, since they consume it):
 //   solve | enum | enumstats | minimize xN | maximize xN | miniter xN | maxiter xN | validate
 use selen::prelude::*;
@@ -56,6 +60,14 @@ impl St {
     fn vs(&self, t: &str) -> Vec<VarId> {
         if t == "-" { vec![] } else { t.split(',').map(|x| self.v(x)).collect() }
     }
+    fn mat(&self, t: &str) -> Vec<Vec<VarId>> {
+        if t == "-" || t == "E" { return vec![]; }
+        t.split('/').map(|r| if r == "e" { vec![] } else { self.vs(r) }).collect()
+    }
+    fn cube(&self, t: &str) -> Vec<Vec<Vec<VarId>>> {
+        if t == "-" { return vec![]; }
+        t.split("//").map(|l| self.mat(l)).collect()
+    }
     fn opnd(&self, t: &str) -> Opnd {
         if let Some(r) = t.strip_prefix("c:") { Opnd::C(r.parse().expect("const")) } else { Opnd::V(self.v(t)) }
     }
@@ -84,6 +96,29 @@ fn build_call(st: &mut St, t: &[&str]) -> String {
         "bool" => { let v = st.m.bool(); st.vars.push(v); }
         "intset" => { let v = st.m.intset(crate::parse_list(t[1])); st.vars.push(v); }
         "ints" => { let vs = st.m.ints(t[1].parse().unwrap(), t[2].parse().unwrap(), t[3].parse().unwrap()); st.vars.extend(vs); }
+        "ints2d" => { let vs = st.m.ints_2d(t[1].parse().unwrap(), t[2].parse().unwrap(), t[3].parse().unwrap(), t[4].parse().unwrap()); st.vars.extend(vs.into_iter().flatten()); }
+        "ints3d" => { let vs = st.m.ints_3d(t[1].parse().unwrap(), t[2].parse().unwrap(), t[3].parse().unwrap(), t[4].parse().unwrap(), t[5].parse().unwrap()); st.vars.extend(vs.into_iter().flatten().flatten()); }
+        "bools" => { let vs = st.m.bools(t[1].parse().unwrap()); st.vars.extend(vs); }
+        "bools2d" => { let vs = st.m.bools_2d(t[1].parse().unwrap(), t[2].parse().unwrap()); st.vars.extend(vs.into_iter().flatten()); }
+        "bools3d" => { let vs = st.m.bools_3d(t[1].parse().unwrap(), t[2].parse().unwrap(), t[3].parse().unwrap()); st.vars.extend(vs.into_iter().flatten().flatten()); }
+        "amin" | "amax" => {
+            let xs = st.vs(t[1]);
+            let r = if t[0] == "amin" { st.m.array_int_minimum(&xs) } else { st.m.array_int_maximum(&xs) };
+            match r { Ok(v) => st.vars.push(v), Err(e) => return format!("err {}", err_name(&e)) }
+        }
+        "sumiter" => {
+            let ops: Vec<Opnd> = if t[1] == "-" { vec![] } else { t[1].split(',').map(|x| st.opnd(x)).collect() };
+            let r = if ops.iter().all(|o| matches!(o, Opnd::V(_))) {
+                st.m.sum_iter(ops.iter().map(|o| match o { Opnd::V(x) => *x, Opnd::C(_) => unreachable!() }))
+            } else if ops.iter().all(|o| matches!(o, Opnd::C(_))) {
+                st.m.sum_iter(ops.iter().map(|o| match o { Opnd::C(c) => Val::ValI(*c), Opnd::V(_) => unreachable!() }))
+            } else { panic!("harness: sumiter takes one item type") };
+            st.vars.push(r);
+        }
+        "element2d" => { let m = st.mat(t[1]); let (r, c, v) = (st.v(t[2]), st.v(t[3]), st.v(t[4])); st.m.element_2d(&m, r, c, v); }
+        "element3d" => { let q = st.cube(t[1]); let (d, r, c, v) = (st.v(t[2]), st.v(t[3]), st.v(t[4]), st.v(t[5])); st.m.element_3d(&q, d, r, c, v); }
+        "table2d" => { let m = st.mat(t[1]); st.m.table_2d(&m, parse_tuples(t[2])); }
+        "table3d" => { let q = st.cube(t[1]); st.m.table_3d(&q, parse_tuples(t[2])); }
         "add" | "sub" | "mul" | "mod" => {
             let (a, b) = (st.opnd(t[1]), st.opnd(t[2]));
             let r = match t[0] { "add" => bin!(st, add, a, b), "sub" => bin!(st, sub, a, b), "mul" => bin!(st, mul, a, b), _ => bin!(st, modulo, a, b) };
@@ -139,7 +174,7 @@ fn build_call(st: &mut St, t: &[&str]) -> String {
         }
         "between" => { let (a, b, c) = (st.v(t[1]), st.v(t[2]), st.v(t[3])); st.m.between(a, b, c); }
         "gcc" => { let xs = st.vs(t[1]); let vals = crate::parse_list(t[2]); let cs = st.vs(t[3]); st.m.gcc(&xs, &vals, &cs); }
-        "new" => { let c = crate::mlevel::parse_cons(t[1], &st.vars); st.m.new(c); }
+        "new" => { if let Some(c) = crate::mlevel::parse_cons_opt(t[1], &st.vars) { st.m.new(c); } }
         "fn" => {
             let (l, r) = (crate::mlevel::parse_expr(t[2], &st.vars), crate::mlevel::parse_expr(t[3], &st.vars));
             use selen::constraints::functions as f;
